@@ -283,7 +283,12 @@ fn check_unused_defines(
             0,
             &hierarchy);
 
-        if let None = maybe_decl
+        let is_constant = maybe_decl.map_or(false, |decl_ref|
+            matches!(
+                decls.symbols.get(decl_ref).kind,
+                util::SymbolKind::Constant));
+
+        if !is_constant
         {
             report.error(
                 format!(
